@@ -377,10 +377,7 @@ impl Scenario {
             if n(TxKind::LiqWithdraw) > 0 { self.bump("seal_with_withdrawals"); }
             if n(TxKind::Swap) + n(TxKind::LiqDeposit) + n(TxKind::LiqWithdraw) >= 3 { self.bump("seal_with_3plus_pool_requests"); }
         }
-        {   // known-finding classes that depend only on the state being sealed
-            let legacy = matches!(u.verif_network(), NetID::Mainnet | NetID::Testnet);
-            if legacy && h < 978392 && u.verif_transactions().iter().any(|t| t.kind == TxKind::LiqDeposit) { self.tag("F19"); }
-        }
+        // (the legacy-deposit finding F19 is recognised by the reflection from its exact witness, not by a blanket class on the step)
         let res = catch_unwind(AssertUnwindSafe(move || { let s = u.seal(a); let hd = s.header(); (s, hd) }));
         match res {
             Ok((s, hd)) => {
